@@ -148,10 +148,6 @@ def kind (c : Cfg) (op : Op) (_a b : Nat) : ExcKind :=
   | .div => if isZero c b then .cfloat_divide_by_zero else if isNaN c b then .cfloat_divide_by_nan else .cfloat_operand_is_nan
   | _ => .cfloat_operand_is_nan
 
-/-- operand class of D22: `+ - *` with a quiet-NaN operand and no signalling-NaN operand. -/
-def qnanOperandClass (c : Cfg) (op : Op) (a b : Nat) : Bool :=
-  (op == .add || op == .sub || op == .mul) && (isQNaN c a || isQNaN c b) && !(isSNaN c a || isSNaN c b)
-
 /-- operand class: `/` with a quiet-NaN numerator over a divisor that is neither zero nor NaN. -/
 def divQNaNNumeratorClass (c : Cfg) (op : Op) (a b : Nat) : Bool :=
   op == .div && isQNaN c a && !(isZero c b) && !(isNaN c b)
